@@ -919,32 +919,9 @@ fn gen(a: &Args) {
 /// rough tag of the recorded finding classes (search mode only; the authoritative classification is
 /// known_class in coq/Corr/C17.v)
 fn rough_class_sql(q: &Query) -> u32 {
-    if q.sel.is_none() { return 2; }
     let lw0 = q.tabs[0].cols.len();
     let outer = |j: &Jt| j.left_outer() || j.right_outer();
-    if q.tabs.len() == 2 {
-        let (jt, on) = &q.joins[0];
-        let on = if jt.has_on() { on.clone() } else { None };
-        let sh = on_shape(&on, lw0);
-        // same-side `col = col` conjuncts count as residual too
-        let same_side = { fn conj<'a>(e: &'a Expr, out: &mut Vec<&'a Expr>) { if let Expr::And(a, b) = e { conj(a, out); conj(b, out); } else { out.push(e); } }
-            let mut c = vec![]; if let Some(e) = &on { conj(e, &mut c); }
-            c.iter().any(|x| matches!(x, Expr::Cmp(CmpOp::Eq, a, b) if matches!((&**a, &**b), (Expr::Col(i), Expr::Col(j)) if (*i < lw0) == (*j < lw0)))) };
-        if sh == "equi_plus_residual" || same_side { return 3; }
-        if outer(jt) && q.whr.is_some() { return 4; }
-        if q.qual && q.whr.is_some() { return 10; }
-        if sh == "equi" || sh == "equi_multi" {
-            // a pair of zero keys of different sign (or Int 0 against -0.0)
-            let zeroish = |v: &Val| matches!(v, Val::Float(b) if *b << 1 == 0) || matches!(v, Val::Int(0));
-            let neg = |v: &Val| matches!(v, Val::Float(b) if *b == 1u64 << 63);
-            let l = q.tabs[0].rows.iter().flatten();
-            let r = q.tabs[1].rows.iter().flatten();
-            let (lz, ln) = (l.clone().any(|v| zeroish(v) && !neg(v)), l.clone().any(neg));
-            let (rz, rn) = (r.clone().any(|v| zeroish(v) && !neg(v)), r.clone().any(neg));
-            if (lz && rn) || (ln && rz) { return 8; }
-        }
-        return 0;
-    }
+    if q.tabs.len() == 2 { return 0; }       // two-table joins: every former class is repaired in /repo
     if q.whr.is_some() && q.qual { return 5; }
     let mut lw = lw0;
     for (k, (jt, on)) in q.joins.iter().enumerate() {
